@@ -86,6 +86,9 @@ RULES = [
     ("I2", "vm.rs",
      "        backtrack_count += 1;\n",
      "        backtrack_count += 1;\n        crate::symx_api::vm_backtrack();\n"),
+    ("I2b", "vm.rs",
+     "        let (newpc, newix) = state.pop();\n",
+     "        let (newpc, newix) = state.pop();\n        crate::symx_api::vm_resume();\n"),
     ("I4", "compile.rs",
      "pub(crate) fn compile_inner(inner_re: &str, options: &RegexOptions) -> Result<RaRegex> {\n",
      "pub(crate) fn compile_inner(inner_re: &str, options: &RegexOptions) -> Result<RaRegex> {\n    crate::symx_api::note_delegate(inner_re, &options.syntaxc);\n"),
@@ -121,6 +124,13 @@ RULES = [
 
 # rules whose absence is tolerated (instrumentation for a single property): the
 # property that needs them reports INCONCLUSIVE itself.
+# (rule that may be missing, rule to skip as well, replacement rule applied instead)
+FALLBACKS = {
+    "R8b": ("R8c", ("R8c-fallback", "lib.rs",
+            "    let bytes = s.as_bytes();\n    loop {\n        ix -= 1;",
+            "    let bytes_owned = crate::symtext::Text::representative_bytes(s);\n    let bytes: &[u8] = &bytes_owned;\n    loop {\n        ix -= 1;")),
+}
+
 OPTIONAL = {"I3a", "I3b", "I3c", "I3d", "I3e", "I3f", "I3g", "I3h", "I3i"}
 
 
@@ -149,7 +159,14 @@ def main():
             with open(os.path.join(REPO, "src", f)) as fh:
                 files[f] = fh.read()
     applied, missing = [], []
-    for rid, fname, old, new in RULES:
+    rules = list(RULES)
+    # fallbacks: decided before anything is rewritten
+    for rid, (also_skip, repl) in FALLBACKS.items():
+        r = next(x for x in rules if x[0] == rid)
+        if files.get(r[1], "").count(r[2]) != 1:
+            rules = [x for x in rules if x[0] not in (rid, also_skip)] + [repl]
+            missing.append(rid + " (fallback " + repl[0] + ")")
+    for rid, fname, old, new in rules:
         if fname not in files:
             die("source shape changed at %s: no file src/%s" % (rid, fname))
         n = files[fname].count(old)
